@@ -26,6 +26,9 @@ def prepare(repo):
 REJECTS = [
     ("true-overload", "onPicked: console.log(1)"),
     ("true-overload-with-parameter", "onPicked: function(i: int) { console.log(i) }"),
+    ("clone-plus-true-overload", "onMoved: console.log(1)"),
+    ("clone-plus-true-overload-with-parameter", "onMoved: function(p: int) { console.log(p) }"),
+    ("clone-plus-true-overload-at-second-argument", "onDialed: function(a: int) { console.log(a) }"),
     ("slot-is-not-a-signal", "onBump: console.log(1)"),
     ("property-is-not-a-signal", "onIntVal: console.log(1)"),
     ("unknown-signal", "onNoSuchThing: console.log(1)"),
@@ -38,7 +41,7 @@ REJECTS = [
 
 
 def gen_case(rng, params, index):
-    if rng.chance(0.1):
+    if rng.chance(0.12):
         kind, line = rng.choice(REJECTS)
         qml = ("import qmluic.QtWidgets\nQWidget {\n    id: root\n    QVBoxLayout {\n        SimWidget {\n            id: w1\n            %s\n        }\n"
                "        SimWidget { id: w2; onFired: w1.reset() }\n    }\n}\n" % line)
